@@ -57,7 +57,11 @@ def _mk(start, step, n, with_attr, two_d=False):
     if two_d:
         data = (np.arange(n, dtype=float) + 1)[:, None] * np.array([1.0, 1000.0])[None, :]
         return xr.DataArray(data, dims=["time", "channel"], coords={"time": xr.Variable("time", coords, attrs=attrs), "channel": [0, 1]})
-    return xr.DataArray(np.arange(n, dtype=float) + 1, dims=["time"], coords={"time": xr.Variable("time", coords, attrs=attrs)})
+    out = xr.DataArray(np.arange(n, dtype=float) + 1, dims=["time"], coords={"time": xr.Variable("time", coords, attrs=attrs)})
+    if n % 3 == 0:
+        # things the property does not mention still vary: a name, array attributes, a scalar coordinate
+        out = out.rename("waveform").assign_attrs(units="V", source="rv").assign_coords(recording_id=7)
+    return out
 
 
 def _vals(res):
